@@ -11,7 +11,7 @@ From VR Require Import Model.C43 Proofs.C43.
    ended twice, only spans that were started recording are ended, and once no
    call is left running every recording span that was started has been ended. *)
 Theorem recording_span_ended_once :
-  forall (extract : bytes -> option pctx) (sampler : option pctx -> bool) g calls sched,
+  forall (extract : bytes -> bytes -> option sctx) (sampler : option sctx -> bool) g calls sched,
   let r := run extract sampler g calls init_state sched in
   let flat := concat (snd r) in
   NoDup (ended_of flat)
@@ -23,14 +23,15 @@ Proof. exact life_all. Qed.
 (* Every history, every sampler: segment by segment (one segment per dispatch step)
    the backend saw exactly what the dispatch layer's plan demands — at most one
    server span started per dispatch, named after the method and parented on the
-   caller's traceparent (root when absent / invalid / propagation off); a span
+   caller's traceparent whatever span is already current in the dispatch context
+   (under that ambient span, or root, when absent / invalid / propagation off); a span
    ended there is ended once with status Error iff the dispatch failed (error
    recorded iff configured, error type attached), Ok otherwise; exactly one
    counter increment and one duration sample per ended dispatch labelled
    ok / error; nothing at all for a dispatch that never reaches the hook, no span
    events with tracing off, no metric events with metrics off. *)
 Theorem every_dispatch_reported_with_its_outcome :
-  forall (sampler : option pctx -> bool) g calls sched,
+  forall (sampler : option sctx -> bool) g calls sched,
   segs_ok g (snd (plan calls [] sched))
           (snd (run (extract_fn (g_propagate g)) sampler g calls init_state sched)) = true.
 Proof.
@@ -50,21 +51,28 @@ Theorem error_iff_failed : forall g s t i err e,
 Proof. exact end_status. Qed.
 
 (* parent = the caller's traceparent when a well-formed one was sent (W3C version 00:
-   32 + 16 lower-case hex digits, not all zero, flags <= 3) ... *)
+   32 + 16 lower-case hex digits, not all zero, flags <= 3) — for EVERY ambient span
+   context [n_amb i] the dispatch context may already carry (none, a recording local
+   span, a remote one): the caller's trace id, span id, remote flag and tracestate win *)
 Theorem parent_is_traceparent : forall sampler g s i tr sp fl,
   g_tracing g = true -> g_propagate g = true -> n_tp i = tp00 tr sp fl ->
   part_ok 32 tr = true -> part_ok 16 sp = true -> part_ok 2 fl = true ->
   (flags_val fl <=? 3)%N = true -> all_zero tr = false -> all_zero sp = false ->
   snd (hook_start (extract_fn (g_propagate g)) sampler g s i) =
-  [BStart (s_next s) (sampler (Some {| p_trace := tr; p_span := sp; p_sampled := N.odd (flags_val fl) |}))
-          (span_name i) true (Some {| op_trace := tr; op_span := sp; op_same := true |})].
+  [BStart (s_next s)
+          (sampler (Some {| x_trace := tr; x_span := sp; x_sampled := N.odd (flags_val fl);
+                            x_remote := true; x_tstate := n_ts i |}))
+          (span_name i) true
+          (Some {| op_trace := tr; op_span := sp; op_same := true; op_remote := true; op_tstate := n_ts i |})].
 Proof. exact start_parent_w3c. Qed.
 
-(* ... and a root span when none was sent (or the propagator finds none). *)
-Theorem root_when_no_traceparent : forall sampler g s i,
+(* ... and when none was sent the span stays under the ambient span context: a child
+   of the span already current in the dispatch context, a root span when there is none. *)
+Theorem ambient_parent_when_no_traceparent : forall sampler g s i,
   g_tracing g = true -> n_tp i = [] ->
-  snd (hook_start (extract_fn (g_propagate g)) sampler g s i) = [BStart (s_next s) (sampler None) (span_name i) true None].
-Proof. intros sampler g s i T E. apply start_root; [exact T | rewrite E; apply absent_tp_is_root]. Qed.
+  snd (hook_start (extract_fn (g_propagate g)) sampler g s i) =
+  [BStart (s_next s) (sampler (n_amb i)) (span_name i) true (option_map opar_of (n_amb i))].
+Proof. intros sampler g s i T E. apply start_ambient; [exact T | rewrite E; apply absent_tp_is_none]. Qed.
 
 (* the request metric: exactly one increment (and one duration sample) per
    OnDispatchEnd, labelled with the dispatch's method, type and ok / error *)
@@ -105,14 +113,20 @@ Proof. vm_compute. repeat split; reflexivity. Qed.
 
 Example history_nontrivial :
   let g := {| g_tracing := true; g_metrics := true; g_recexc := true; g_propagate := true; g_sampler := SParentAlways |} in
+  let amb := {| x_trace := str "a1a1a1a1a1a1a1a1a1a1a1a1a1a1a1a1"; x_span := str "a2a2a2a2a2a2a2a2"; x_sampled := true;
+                x_remote := false; x_tstate := [] |} in
   let c0 := {| c_http := false; c_kind := KUnary; c_tp_meta := str "00-0af7651916cd43dd8448eb211c80319c-b7ad6b7169203331-01";
-               c_tp_hdr := []; c_badparams := false; c_init := OPanic; c_turns := []; c_inputs := [] |} in
-  let c1 := {| c_http := true; c_kind := KExch; c_tp_meta := []; c_tp_hdr := []; c_badparams := false; c_init := OOk;
+               c_tp_hdr := []; c_tstate := str "vendor=1"; c_amb := Some amb; c_badparams := false; c_init := OPanic; c_turns := []; c_inputs := [] |} in
+  let c1 := {| c_http := true; c_kind := KExch; c_tp_meta := []; c_tp_hdr := []; c_tstate := []; c_amb := Some amb; c_badparams := false; c_init := OOk;
                c_turns := [TEmit; TErr]; c_inputs := [ITick; ITick; ITick] |} in
   let o := model {| i_cfg := g; i_calls := [c0; c1]; i_sched := [Begin 0; Begin 1; Finish 0; Finish 1] |} in
   length (o_segs o) = 6%nat /\ length (o_exported o) = 4%nat
   /\ nth 2 (o_segs o) [] =
      [BEnd 0 SError true (str "RuntimeError") true
-        (Some {| op_trace := str "0af7651916cd43dd8448eb211c80319c"; op_span := str "b7ad6b7169203331"; op_same := true |});
-      BCount (str "unary") (str "unary") (str "error") 1; BHist (str "unary") (str "unary") (str "error") 1].
+        (Some {| op_trace := str "0af7651916cd43dd8448eb211c80319c"; op_span := str "b7ad6b7169203331"; op_same := true;
+                 op_remote := true; op_tstate := str "vendor=1" |});
+      BCount (str "unary") (str "unary") (str "error") 1; BHist (str "unary") (str "unary") (str "error") 1]
+  /\ nth 1 (o_segs o) [] =
+     [BStart 1 true (str "vgi_rpc/exch") true
+        (Some {| op_trace := x_trace amb; op_span := x_span amb; op_same := true; op_remote := false; op_tstate := [] |})].
 Proof. vm_compute. repeat split; reflexivity. Qed.
